@@ -7,6 +7,19 @@ use tx3_tir::model::v1beta0 as tir;
 
 use crate::Network;
 
+/// Fixed-size hashes come from user-supplied byte strings of any length: a wrong length is an
+/// error (the conversion from a slice panics on it).
+pub fn bytes_into_hash<const SIZE: usize>(bytes: &[u8]) -> Result<primitives::Hash<SIZE>, Error> {
+    if bytes.len() != SIZE {
+        return Err(Error::CoerceError(
+            hex::encode(bytes),
+            format!("{SIZE}-byte hash"),
+        ));
+    }
+
+    Ok(primitives::Hash::from(bytes))
+}
+
 pub fn string_into_address(value: &str) -> Result<pallas::ledger::addresses::Address, Error> {
     pallas::ledger::addresses::Address::from_str(value)
         .map_err(|_| Error::CoerceError(value.to_string(), "Address".to_string()))
@@ -21,7 +34,7 @@ pub fn policy_into_address(
     policy: &[u8],
     network: Network,
 ) -> Result<pallas::ledger::addresses::Address, Error> {
-    let policy = primitives::Hash::from(policy);
+    let policy = bytes_into_hash::<28>(policy)?;
 
     let network = match network {
         primitives::NetworkId::Testnet => pallas::ledger::addresses::Network::Testnet,
@@ -73,10 +86,13 @@ pub fn expr_into_utxo_refs(expr: &tir::Expression) -> Result<Vec<UtxoRef>, Error
         tir::Expression::UtxoRefs(x) => Ok(x.clone()),
         tir::Expression::UtxoSet(x) => Ok(x.iter().map(|x| x.r#ref.clone()).collect()),
         tir::Expression::String(x) => {
-            let (raw_txid, raw_output_ix) = x.split_once("#").expect("Invalid utxo ref");
+            let invalid = || Error::CoerceError(x.clone(), "UtxoRef".to_string());
+
+            let (raw_txid, raw_output_ix) = x.split_once('#').ok_or_else(invalid)?;
+
             Ok(vec![UtxoRef {
-                txid: hex::decode(raw_txid).expect("Invalid hex txid"),
-                index: raw_output_ix.parse().expect("Invalid output index"),
+                txid: hex::decode(raw_txid).map_err(|_| invalid())?,
+                index: raw_output_ix.parse().map_err(|_| invalid())?,
             }])
         }
         _ => Err(Error::CoerceError(
@@ -185,7 +201,7 @@ pub fn address_into_keyhash(
 
 pub fn expr_into_address_keyhash(expr: &tir::Expression) -> Result<primitives::AddrKeyhash, Error> {
     match expr {
-        tir::Expression::Bytes(x) => Ok(primitives::AddrKeyhash::from(x.as_slice())),
+        tir::Expression::Bytes(x) => bytes_into_hash(x.as_slice()),
         tir::Expression::Address(x) => {
             let address = bytes_into_address(x)?;
             address_into_keyhash(&address)
@@ -209,8 +225,8 @@ pub fn expr_into_hash<const SIZE: usize>(
     ir: &tir::Expression,
 ) -> Result<primitives::Hash<SIZE>, Error> {
     match ir {
-        tir::Expression::Bytes(x) => Ok(primitives::Hash::from(x.as_slice())),
-        tir::Expression::Hash(x) => Ok(primitives::Hash::from(x.as_slice())),
+        tir::Expression::Bytes(x) => bytes_into_hash(x.as_slice()),
+        tir::Expression::Hash(x) => bytes_into_hash(x.as_slice()),
         _ => Err(Error::CoerceError(format!("{ir:?}"), "Hash".to_string())),
     }
 }
